@@ -287,6 +287,11 @@ def resume_attempt(ctx, rng, servers, stored, W, r):
     elif change == "lower_version" and ver > (3, 0) and ver < (3, 4):
         ckw["maxVersion"] = (3, ver[1] - 1)
         inconsistent = "version"
+    if getattr(r, "cipher_names", None):
+        # the session came from a connection with a restricted offer: keep
+        # offering the same, or the server may legitimately prefer a suite
+        # of the other hash and pass the ticket over
+        ckw["cipherNames"] = list(r.cipher_names)
     cs = settings(**ckw)
     if change == "suites":
         # offer only suites that exclude the session's suite
@@ -297,6 +302,12 @@ def resume_attempt(ctx, rng, servers, stored, W, r):
                                "chacha20-poly1305") if c != su.cipher]
             cs.cipherNames = alt
             inconsistent = "suite"
+        elif su is not None:
+            # TLS 1.3: a ticket is bound to the hash of its suite; offer
+            # only suites with the other hash
+            cs.cipherNames = ["aes128gcm", "chacha20-poly1305"] \
+                if su.prf == "sha384" else ["aes256gcm"]
+            inconsistent = "suite13"
     ss = srv.settings(ver)
     fl = Flavor("cert", skey="rsa", ckey=r.ckey, req_cert=bool(r.ckey),
                 cset=cs, sset=ss, session_cache=srv.cache, session=s2,
@@ -387,14 +398,18 @@ def resume_attempt(ctx, rng, servers, stored, W, r):
     if resumed and inconsistent == "version":
         # not named by the property; recorded only
         ctx.count("resumed_at_lower_version")
-    if resumed and inconsistent in ("ems", "etm", "suite", "add_ems"):
+    if resumed and inconsistent in ("ems", "etm", "suite", "add_ems",
+                                    "suite13"):
         ctx.violation(dict(key, clause="resumed_inconsistent_hello",
                            what=inconsistent), W2,
                       "resumed although the ClientHello dropped/changed %s"
                       % inconsistent)
     if not both:
-        # may the connection fail?
-        if inconsistent is None:
+        # may the connection fail?  A session that merely does not fit the
+        # new offer (suite no longer offered, other hash) is not usable and
+        # must be passed over; only the EMS / EtM mismatches are cases where
+        # an abort is a legitimate answer (RFC 7627 5.3, RFC 7366 3.1)
+        if inconsistent in (None, "suite13"):
             # stale / forged / unknown / fine credentials never break the
             # connection: a full handshake must complete
             ctx.violation(dict(key, clause="fallback_failed",
@@ -468,6 +483,8 @@ def resume_attempt(ctx, rng, servers, stored, W, r):
             nr.sni = sni
             nr.ckey = r.ckey
             nr.sid = bytes(p.c.session.sessionID or b"")
+            if inconsistent == "suite13" or getattr(r, "cipher_names", None):
+                nr.cipher_names = list(cs.cipherNames)
             pump(p, p.c, p.csock)
             close_pair(p, "clean", rng)
             nr.closed_how = "clean"
